@@ -740,9 +740,10 @@ def returns_none(view, f, bb):
         for s in b["stmts"]:
             if s["k"] == "assign" and s["place"]["local"] == 0 and not s["place"]["proj"]:
                 return s["rv"]["k"] == "aggregate" and s["rv"].get("variant") == "None"
-        t = b["term"]
-        if t["k"] == "goto":
-            bb = t["target"]
+        # one way on (in the CFG with constant conditions folded and literal Options threaded past their match)
+        nx = f.cfg.succ[bb] if bb < len(f.cfg.succ) else []
+        if len(nx) == 1:
+            bb = nx[0]
         else:
             return False
     return False
